@@ -1,8 +1,8 @@
 (* C01 — Message round-trip fidelity for every size, chunking and compression setting.
    Statements only; proofs in Proofs/TrimWindowP.v, Proofs/MaskP.v, Proofs/WriterP.v. *)
-From Coq Require Import List NArith ZArith Arith.
+From Coq Require Import List NArith ZArith Arith Bool.
 From WS Require Import Base.Words Model.Mask Model.Frame Model.Proto Model.Writer Model.RefDecoder Model.Window
-  Model.Reader Model.Script Model.ScriptZ Gen.Consts Proofs.ReaderZP Proofs.RoundTripZP Proofs.MaskP Proofs.WriterP Proofs.TrimWindowP Proofs.RoundTripP.
+  Model.Reader Model.Script Model.ScriptZ Gen.Consts Proofs.ReaderZP Proofs.RoundTripZP Proofs.MaskP Proofs.WriterP Proofs.TrimWindowP Proofs.RoundTripP Gen.WriteCode Proofs.GenTieP.
 Import ListNotations.
 Close Scope N_scope. Close Scope Z_scope. Open Scope nat_scope.
 
@@ -119,3 +119,18 @@ Theorem C01_contract_satisfiable : exists dz inflate deflate_body,
   (forall dict plain, (length dict <= zwindow)%nat -> inflate dict (deflate_body dict plain ++ c_deflateMessageTail) = (plain, INeedMore)).
 Proof. exists toy_dz, toy_inflate2, toy_body. split; [exact toy_dz_wf | split; [exact toy_flush | exact toy_inflate_deflate]]. Qed.
 Print Assumptions C01_contract_satisfiable.
+
+(* tie to the source by translation (Gen/WriteCode.v is regenerated from write.go / conn.go on every run): a message of the
+   model's writer becomes compressed exactly when msgWriter.Write calls ensureFlate — compression negotiated, first frame
+   of the message, length at or above the threshold — and the threshold is the one newConn computes *)
+Theorem C01_compression_decision_is_source : forall keys dz cfg m p,
+  m_flate (mw_write keys dz cfg m p) =
+  (m_flate m || gen_enable_flate (match wc_co cfg with Some _ => true | None => false end)
+                  (Z.of_N (m_opc m)) (Z.of_nat (length p)) (Z.of_N (wc_thr cfg)))%bool.
+Proof. exact mw_write_flag_is_source. Qed.
+Print Assumptions C01_compression_decision_is_source.
+
+Theorem C01_threshold_is_source : forall c,
+  wc_thr c = Z.to_N (gen_flate_threshold (match wc_co c with Some _ => true | None => false end) (Z.of_N (wc_thr0 c)) (wc_takeover c)).
+Proof. exact wc_thr_is_source. Qed.
+Print Assumptions C01_threshold_is_source.
